@@ -176,7 +176,12 @@ def make_problem(mdp: dict):
         v0 = jnp.array(v0_np.astype(np.float32))
     pol0 = None
     if r.get("has_init_policy"):
-        pol0 = jnp.array(avecs[np.array(mdp["pol0"], dtype=np.int32)])
+        rows = avecs[np.array(mdp["pol0"], dtype=np.int32)]
+        if r.get("pol0_as_int") and afloat and np.all(rows == np.round(rows)):
+            # a starting heuristic that returns whole-number actions as an integer array although the action space is
+            # float-valued (e.g. "order nothing" = jnp.array([0]))
+            rows = np.round(rows).astype(np.int32)
+        pol0 = jnp.array(rows)
     # state vectors with fractional components (e.g. a grid in half units): float64 rows, render["sdiv"] > 1
     sdiv = int(r.get("sdiv", 1))
     j_states = jnp.array(states) if sdiv == 1 else jnp.array(states.astype(np.float64) / sdiv)
